@@ -18,7 +18,7 @@ import (
 func init() {
 	props["C03"] = propC03
 	metas["C03"] = propMeta{
-		Text:      "Decides structural necessary conditions of the try/catch/finally mechanism, each of which was found violated with a failing program: (finalizer-before-return) the return statement's compiler emits OpFinalizer before OpReturn on every path on which the try depth is not -1; (finalizer-before-jump) break / continue emit OpFinalizer with the loop's try depth + 1 before the jump whenever the loop's try depth differs from the current one; (counter-balance) the compile-time try depth is decremented on every successful path after it was incremented; (try-end-pop) the instruction that ends a try statement pops the consumed handler when nothing is pending; (pending-err-per-handler) the error parked while a finally / catch block runs lives in a per-handler slot, so a try statement nested in that block cannot lose it; (handler-active) a frame is handed to the handler switch only after hasActiveHandler succeeded for that frame; (throw-reentry) the unwinding routine is not re-entered from its own callees. Does NOT decide that finally runs exactly once for every nesting, exit kind and activation history, nor which outcome wins - that needs an exploration of the handler protocol against an independent semantics (a different technique family; see DESIGN.md section 4). 'other'.",
+		Text:      "Decides structural necessary conditions of the try/catch/finally mechanism, each of which was found violated with a failing program: (finalizer-before-return) the return statement's compiler emits OpFinalizer before OpReturn on every path on which the try depth is not -1; (finalizer-before-jump) break / continue emit OpFinalizer with the loop's try depth + 1 before the jump whenever the loop's try depth differs from the current one; (counter-balance) the compile-time try depth is decremented on every successful path after it was incremented; (try-end-pop) the instruction that ends a try statement pops the consumed handler when nothing is pending; (pending-err-per-handler) the error parked while a finally / catch block runs lives in a per-handler slot, so a try statement nested in that block cannot lose it; (handler-active) a frame is handed to the handler switch only after hasActiveHandler succeeded for that frame; (throw-reentry) the unwinding routine is not re-entered from its own callees; (loop-record-current) the loop record consulted by break / continue is filled from the current depths on every path; (active-skips-all) the active-handler test loops over the handler list; (handler-consume) entering catch / finally clears the handler's positions. Does NOT decide that finally runs exactly once for every nesting, exit kind and activation history, nor which outcome wins - that needs an exploration of the handler protocol against an independent semantics (a different technique family; see DESIGN.md section 4). 'other'.",
 		Note:      trustedNote,
 		Technique: "static analysis: must-pass-through and guard rules over the compiler's emitters of OpFinalizer / OpReturn / OpJump, dominance and value-flow rules over the VM's handler list",
 		DesignRef: "DESIGN.md sections 3 and 4, C03",
@@ -28,8 +28,14 @@ func init() {
 func propC03(c *Ctx) {
 	rfr := c.Rule("finalizer-before-return", "the compiler of the return statement emits OpFinalizer before OpReturn on every path on which the compile-time try depth is not -1: a return inside try / catch runs the pending finally blocks first", 1)
 	ruleFinalizerBeforeReturn(c, rfr)
-	rfj := c.Rule("finalizer-before-jump", "break and continue emit OpFinalizer (operand: the loop's try depth + 1) before their jump whenever the loop was entered at another try depth than the current one: leaving a try statement through a loop jump runs its finally block, and only the finally blocks of the try statements really left", 2)
+	rfj := c.Rule("finalizer-before-jump", "break and continue emit OpFinalizer (operand: the loop's try depth + 1) before their jump whenever the loop was entered at another try depth than the current one: leaving a try statement through a loop jump runs its finally block, and only the finally blocks of the try statements really left", 1)
 	ruleFinalizerBeforeJump(c, rfj)
+	rlr := c.Rule("loop-record-current", "the record that break / continue consult holds the compiler's try depth and finally depth as they are when the loop is entered: the function handing it out stores them on every path", 1)
+	ruleLoopRecordCurrent(c, rlr)
+	ras := c.Rule("active-skips-all", "the test for a handler that can take an error walks down the handler list in a loop: any number of consumed handlers (nested finally blocks in progress) is skipped", 1)
+	ruleActiveSkipsAll(c, ras)
+	rhc := c.Rule("handler-consume", "entering a catch block clears the handler's catch position and entering a finally block clears both positions on every path on which the frame has a handler: an error thrown inside the block is not delivered to the same statement again", 3)
+	ruleHandlerConsume(c, rhc)
 	rcb := c.Rule("counter-balance", "the compile-time try depth (and every other nesting counter) is decremented on every successful path after it was incremented: later statements of the same compilation see the true depth", 2)
 	ruleCounterBalance(c, rcb)
 	rtp := c.Rule("try-end-pop", "the instruction that ends a try statement pops the statement's consumed handler when neither an error nor a return is pending: try statements that already completed have no influence on later ones", 1)
@@ -179,6 +185,84 @@ func ruleFinalizerBeforeJump(c *Ctx, rule string) {
 		_, ok = isFieldAddrOf(ld.X, pkg, typ, f)
 		return ok
 	}
+	// The loop record remembers, per loop, compiler counters as they were when the
+	// loop was entered: (field of loopStmts, field of Compiler) pairs, read off the
+	// function that builds the record.  One pair is the try depth.  A second one
+	// must be a counter that the emitter of OpSetupFinally raises around the
+	// finally body: inside a finally body the try depth is already back to the
+	// outer value, so the try depth alone cannot tell a jump that leaves the finally
+	// block (the statement's consumed handler, with its pending error or return,
+	// must be dropped) from a jump that stays inside it.
+	cs, _ := l.structField(modPath, "Compiler", "tryCatchIndex")
+	ls, _ := l.structField(modPath, "loopStmts", "lastTryCatchIndex")
+	opSF, okSF := constOf(l, modPath, "OpSetupFinally")
+	type pair struct{ h, g int }
+	var pairs []pair
+	raisedAroundFinally := map[int]bool{}
+	for _, fn := range l.RepoFuncs(func(pp string) bool { return pp == modPath }) {
+		emitsSF := false
+		eachInstr(fn, func(ins ssa.Instruction) {
+			if _, ok := emitsOp(l, ins, emit, opSF); ok && okSF {
+				emitsSF = true
+			}
+			st, ok := ins.(*ssa.Store)
+			if !ok {
+				return
+			}
+			fa, ok := st.Addr.(*ssa.FieldAddr)
+			if !ok {
+				return
+			}
+			pt, ok := fa.X.Type().Underlying().(*types.Pointer)
+			if !ok || ls == nil || !types.Identical(pt.Elem().Underlying(), ls) {
+				return
+			}
+			ld, ok := st.Val.(*ssa.UnOp)
+			if !ok || ld.Op != token.MUL {
+				return
+			}
+			ga, ok := ld.X.(*ssa.FieldAddr)
+			if !ok {
+				return
+			}
+			gt, ok := ga.X.Type().Underlying().(*types.Pointer)
+			if !ok || cs == nil || !types.Identical(gt.Elem().Underlying(), cs) {
+				return
+			}
+			pairs = append(pairs, pair{fa.Field, ga.Field})
+		})
+		if emitsSF {
+			// counters incremented in the emitter of OpSetupFinally
+			eachInstr(fn, func(ins ssa.Instruction) {
+				st, ok := ins.(*ssa.Store)
+				if !ok {
+					return
+				}
+				fa, ok := st.Addr.(*ssa.FieldAddr)
+				if !ok {
+					return
+				}
+				if gt, ok := fa.X.Type().Underlying().(*types.Pointer); !ok || cs == nil || !types.Identical(gt.Elem().Underlying(), cs) {
+					return
+				}
+				if bo, ok := st.Val.(*ssa.BinOp); ok && bo.Op == token.ADD {
+					if k, ok := constInt64(bo.Y); ok && k == 1 {
+						raisedAroundFinally[fa.Field] = true
+					}
+				}
+			})
+		}
+	}
+	var required []pair
+	hasFinallyPair := false
+	for _, p := range pairs {
+		if p.g == fTCI && p.h == fLast {
+			required = append(required, p)
+		} else if raisedAroundFinally[p.g] && p.g != fTCI {
+			required = append(required, p)
+			hasFinallyPair = true
+		}
+	}
 	n := 0
 	for _, fn := range fns {
 		eachInstr(fn, func(ins ssa.Instruction) {
@@ -191,44 +275,69 @@ func ruleFinalizerBeforeJump(c *Ctx, rule string) {
 			if k := countKey(key); k > 1 {
 				key += fmt.Sprintf(" #%d", k)
 			}
-			// (a) the depths were compared and found equal on the way here
-			same := false
-			for _, g := range guardEdges(jmp.Block()) {
-				bo, ok := g.If.Cond.(*ssa.BinOp)
-				if !ok || (bo.Op != token.EQL && bo.Op != token.NEQ) {
-					continue
-				}
-				a := isLoad(bo.X, modPath, "loopStmts", fLast) && isLoad(bo.Y, modPath, "Compiler", fTCI)
-				b := isLoad(bo.Y, modPath, "loopStmts", fLast) && isLoad(bo.X, modPath, "Compiler", fTCI)
-				if (a || b) && (bo.Op == token.EQL) == g.Truth {
-					same = true
-				}
-			}
-			// (b) or an OpFinalizer with operand lastTryCatchIndex + 1 precedes it in its block
-			fin := false
-			for _, x := range jmp.Block().Instrs {
-				if x == ssa.Instruction(jmp) {
-					break
-				}
-				if fc, ok := emitsOp(l, x, emit, opFin); ok && len(fc.Call.Args) >= 4 {
-					// the variadic operand slice holds lastTryCatchIndex + 1
-					okOperand := false
-					eachInstr(fn, func(y ssa.Instruction) {
-						st, isSt := y.(*ssa.Store)
-						if !isSt || y.Block() != jmp.Block() {
-							return
-						}
-						if bo, isBo := st.Val.(*ssa.BinOp); isBo && bo.Op == token.ADD && isLoad(bo.X, modPath, "loopStmts", fLast) {
-							if k, isK := constInt64(bo.Y); isK && k == 1 {
-								okOperand = true
+			// every acyclic path from the function's entry to the jump either passes an
+			// emission of OpFinalizer whose operand is the loop's try depth + 1, or has
+			// compared every remembered counter with its current value and found it equal
+			finBlocks := map[*ssa.BasicBlock]bool{}
+			for _, b := range fn.Blocks {
+				for _, x := range b.Instrs {
+					if fc, ok := emitsOp(l, x, emit, opFin); ok && len(fc.Call.Args) >= 4 {
+						okOperand := false
+						for _, y := range b.Instrs {
+							st, isSt := y.(*ssa.Store)
+							if !isSt {
+								continue
+							}
+							if bo, isBo := st.Val.(*ssa.BinOp); isBo && bo.Op == token.ADD && isLoad(bo.X, modPath, "loopStmts", fLast) {
+								if k, isK := constInt64(bo.Y); isK && k == 1 {
+									okOperand = true
+								}
 							}
 						}
-					})
-					fin = okOperand
+						if okOperand {
+							finBlocks[b] = true
+						}
+					}
 				}
 			}
-			c.Check(rule, key, l.Pos(jmp.Pos()), same || fin, "either the loop's try depth equals the current one, or OpFinalizer(loop depth + 1) is emitted first",
-				"the jump of a break / continue can be emitted at another try depth than the loop's without OpFinalizer(loop's depth + 1) before it: leaving a try statement through the loop jump skips its finally block, or runs the finally blocks of try statements that are not left")
+			same, fin := hasFinallyPair, false
+			paths, complete := acyclicPaths(fn, jmp.Block(), 4000)
+			allOK := complete && len(paths) > 0
+			for _, pth := range paths {
+				passesFin := false
+				for _, b := range pth.blocks {
+					if finBlocks[b] && (b != jmp.Block() || instrIndexIn(b, finCallIn(l, b, emit, opFin)) < instrIndexIn(b, jmp)) {
+						passesFin = true
+					}
+				}
+				if passesFin {
+					continue
+				}
+				eqAll := hasFinallyPair
+				for _, p := range required {
+					found := false
+					for _, g := range pth.edges {
+						bo, ok := g.If.Cond.(*ssa.BinOp)
+						if !ok || (bo.Op != token.EQL && bo.Op != token.NEQ) {
+							continue
+						}
+						a := isLoad(bo.X, modPath, "loopStmts", p.h) && isLoad(bo.Y, modPath, "Compiler", p.g)
+						b := isLoad(bo.Y, modPath, "loopStmts", p.h) && isLoad(bo.X, modPath, "Compiler", p.g)
+						if (a || b) && (bo.Op == token.EQL) == g.Truth {
+							found = true
+						}
+					}
+					if !found {
+						eqAll = false
+					}
+				}
+				if !eqAll {
+					allOK = false
+				}
+			}
+			same = allOK
+			c.Check(rule, key, l.Pos(jmp.Pos()), same || fin, "either the loop's try depth and finally depth equal the current ones, or OpFinalizer(loop depth + 1) is emitted first",
+				"the jump of a break / continue can be emitted without OpFinalizer(loop's depth + 1) before it although the jump may leave a try statement of the loop body or the FINALLY BLOCK of one (inside a finally body the try depth is already the outer one, so it needs a counter of its own): leaving through the loop jump skips a finally block, or leaves the statement's consumed handler with its pending error / return on the frame (`try { for { try { throw \"E\" } finally { break } }; X } finally { B }` re-throws E after X)")
 		})
 	}
 	resetKeyCount()
@@ -238,3 +347,257 @@ func ruleFinalizerBeforeJump(c *Ctx, rule string) {
 }
 
 var _ = strings.Contains
+
+type cfgPath struct {
+	blocks []*ssa.BasicBlock
+	edges  []guardEdge
+}
+
+// acyclicPaths enumerates the acyclic paths from fn's entry block to target
+// (blocks visited and branch outcomes taken).  complete is false when the
+// budget was exhausted.
+func acyclicPaths(fn *ssa.Function, target *ssa.BasicBlock, budget int) (out []cfgPath, complete bool) {
+	if len(fn.Blocks) == 0 {
+		return nil, false
+	}
+	complete = true
+	onPath := map[*ssa.BasicBlock]bool{}
+	var blocks []*ssa.BasicBlock
+	var edges []guardEdge
+	var rec func(b *ssa.BasicBlock)
+	rec = func(b *ssa.BasicBlock) {
+		if !complete || onPath[b] {
+			return
+		}
+		if !(b == target || blockReaches(b, target)) {
+			return
+		}
+		onPath[b] = true
+		blocks = append(blocks, b)
+		if b == target {
+			budget--
+			if budget < 0 {
+				complete = false
+			} else {
+				out = append(out, cfgPath{append([]*ssa.BasicBlock(nil), blocks...), append([]guardEdge(nil), edges...)})
+			}
+		} else {
+			iff, isIf := b.Instrs[len(b.Instrs)-1].(*ssa.If)
+			for i, s := range b.Succs {
+				ne := len(edges)
+				if isIf && len(b.Succs) == 2 && b.Succs[0] != b.Succs[1] {
+					edges = append(edges, guardEdge{iff, i == 0})
+				}
+				rec(s)
+				edges = edges[:ne]
+			}
+		}
+		blocks = blocks[:len(blocks)-1]
+		onPath[b] = false
+	}
+	rec(fn.Blocks[0])
+	return out, complete
+}
+
+func instrIndexIn(b *ssa.BasicBlock, ins ssa.Instruction) int {
+	for i, x := range b.Instrs {
+		if x == ins {
+			return i
+		}
+	}
+	return -1
+}
+
+// finCallIn: the first emission of op in block b (nil if none).
+func finCallIn(l *Loaded, b *ssa.BasicBlock, emit *ssa.Function, op int64) ssa.Instruction {
+	for _, x := range b.Instrs {
+		if fc, ok := emitsOp(l, x, emit, op); ok {
+			return fc
+		}
+	}
+	return nil
+}
+
+// ---- C03/loop-record-current ----------------------------------------------------------------------------------------------------
+// The record a loop's break / continue statements consult holds the compiler's
+// try depth (and finally depth) AS THEY ARE WHEN THE LOOP IS ENTERED.  In the
+// function that hands out the record, every path to a return stores each of
+// these fields from the compiler's current counter: a record recycled from an
+// earlier loop of the same nesting level without them decides "finalizer or
+// plain jump" with the depths of that earlier loop.
+func ruleLoopRecordCurrent(c *Ctx, rule string) {
+	l := c.L
+	cs, _ := l.structField(modPath, "Compiler", "tryCatchIndex")
+	ls, _ := l.structField(modPath, "loopStmts", "lastTryCatchIndex")
+	lsT := l.NamedType(modPath, "loopStmts")
+	if !c.Anchor(rule, "Compiler / loopStmts", cs != nil && ls != nil && lsT != nil) {
+		return
+	}
+	n := 0
+	for _, fn := range l.RepoFuncs(func(pp string) bool { return pp == modPath }) {
+		// functions returning *loopStmts
+		res := fn.Signature.Results()
+		if res.Len() != 1 {
+			continue
+		}
+		pt, ok := res.At(0).Type().(*types.Pointer)
+		if !ok || !types.Identical(pt.Elem(), lsT) {
+			continue
+		}
+		// the (record field, compiler field) pairs this function stores
+		type pair struct{ h, g int }
+		seen := map[pair]bool{}
+		isPairStore := func(ins ssa.Instruction) (pair, bool) {
+			st, ok := ins.(*ssa.Store)
+			if !ok {
+				return pair{}, false
+			}
+			fa, ok := st.Addr.(*ssa.FieldAddr)
+			if !ok {
+				return pair{}, false
+			}
+			if p, ok := fa.X.Type().Underlying().(*types.Pointer); !ok || !types.Identical(p.Elem().Underlying(), ls) {
+				return pair{}, false
+			}
+			ld, ok := st.Val.(*ssa.UnOp)
+			if !ok || ld.Op != token.MUL {
+				return pair{}, false
+			}
+			ga, ok := ld.X.(*ssa.FieldAddr)
+			if !ok {
+				return pair{}, false
+			}
+			if p, ok := ga.X.Type().Underlying().(*types.Pointer); !ok || !types.Identical(p.Elem().Underlying(), cs) {
+				return pair{}, false
+			}
+			return pair{fa.Field, ga.Field}, true
+		}
+		eachInstr(fn, func(ins ssa.Instruction) {
+			if p, ok := isPairStore(ins); ok {
+				seen[p] = true
+			}
+		})
+		if len(seen) == 0 {
+			continue
+		}
+		// only the functions that hand a record to a caller for a NEW loop: not mere accessors
+		for p := range seen {
+			p := p
+			n++
+			_, ok := mustPassBefore(fn.Blocks[0].Instrs[0], func(ins ssa.Instruction) bool {
+				q, ok := isPairStore(ins)
+				return ok && q == p
+			}, isReturn)
+			c.Check(rule, fmt.Sprintf("%s | loop record field %s", fnName(fn), ls.Field(p.h).Name()), l.Pos(fn.Pos()), ok, "stored from the compiler's current "+cs.Field(p.g).Name()+" on every path to the return",
+				"the function can hand out a loop record whose "+ls.Field(p.h).Name()+" was not set from the compiler's current "+cs.Field(p.g).Name()+" (a recycled record): break / continue of the new loop decide between a plain jump and OpFinalizer with the depth of an EARLIER loop - a finally block is skipped, or the enclosing try's finally runs in the middle of the loop")
+		}
+	}
+	if n == 0 {
+		c.Und(rule, "builder of the loop record", "-", "no function returning *loopStmts stores a compiler counter into it")
+	}
+}
+
+// ---- C03/active-skips-all -------------------------------------------------------------------------------------------------------
+// A handler stays consumed for as long as its finally block runs, and finally
+// blocks nest: any number of consumed handlers can lie above the nearest
+// handler that can still take an error.  The test that decides whether a frame
+// can take an error walks down the handler list in a LOOP (a cycle of its
+// control-flow graph reads the handlers' catch / finally positions); a test
+// that skips a bounded number of consumed handlers lets an error thrown in a
+// doubly nested finally block escape the catch of its own function.
+func ruleActiveSkipsAll(c *Ctx, rule string) {
+	l := c.L
+	active := l.Method(modPath, "errHandlers", "hasActiveHandler")
+	_, fCatch := l.structField(modPath, "errHandler", "catch")
+	_, fFin := l.structField(modPath, "errHandler", "finally")
+	if !c.Anchor(rule, "errHandlers.hasActiveHandler / errHandler.catch / errHandler.finally", active != nil && fCatch >= 0 && fFin >= 0) {
+		return
+	}
+	inCycle := false
+	eachInstrDeep(active, 1, func(ins ssa.Instruction) {
+		fa, ok := ins.(*ssa.FieldAddr)
+		if !ok {
+			return
+		}
+		if _, ok := isFieldAddrOf(fa, modPath, "errHandler", fa.Field); !ok || (fa.Field != fCatch && fa.Field != fFin) {
+			return
+		}
+		b := fa.Block()
+		for _, s := range b.Succs {
+			if s == b || blockReaches(s, b) {
+				inCycle = true
+			}
+		}
+	})
+	c.Check(rule, "errHandlers.hasActiveHandler | search for a handler that can take the error", l.Pos(active.Pos()), inCycle, "the handlers' catch / finally positions are examined inside a loop",
+		"the test for an active handler examines a bounded number of handlers (no loop): with two or more consumed handlers on top (a finally block inside a finally block) the frame is reported as having no handler, and an error thrown there escapes the function's own catch")
+}
+
+// ---- C03/handler-consume --------------------------------------------------------------------------------------------------------
+// Entering a catch block consumes the handler's catch position, entering a
+// finally block consumes both positions: every path through the function that
+// executes OpSetupCatch (OpSetupFinally) on which the frame has a handler stores
+// zero into the handler's catch (catch and finally) field.  A finally block
+// entered with the catch position still armed lets an error thrown IN the
+// finally block be caught by the statement's own catch, after which the finally
+// block runs a second time.
+func ruleHandlerConsume(c *Ctx, rule string) {
+	l := c.L
+	_, fCatch := l.structField(modPath, "errHandler", "catch")
+	_, fFin := l.structField(modPath, "errHandler", "finally")
+	sc := l.Method(modPath, "VM", "xOpSetupCatch")
+	sf := l.Method(modPath, "VM", "xOpSetupFinally")
+	hasH := l.Method(modPath, "errHandlers", "hasHandler")
+	if !c.Anchor(rule, "VM.xOpSetupCatch / VM.xOpSetupFinally / errHandler.catch / errHandler.finally", sc != nil && sf != nil && fCatch >= 0 && fFin >= 0) {
+		return
+	}
+	zeroStore := func(field int) func(ssa.Instruction) bool {
+		return viaDeep(func(ins ssa.Instruction) bool {
+			st, ok := ins.(*ssa.Store)
+			if !ok {
+				return false
+			}
+			if _, ok := isFieldAddrOf(st.Addr, modPath, "errHandler", field); !ok {
+				return false
+			}
+			k, ok := constInt64(st.Val)
+			return ok && k == 0
+		})
+	}
+	check := func(fn *ssa.Function, what string, fields ...int) {
+		for _, f := range fields {
+			pred := zeroStore(f)
+			// from the true outcome of the handler-present test (or from the entry if there is none)
+			ok := false
+			tested := false
+			for _, b := range fn.Blocks {
+				iff, isIf := b.Instrs[len(b.Instrs)-1].(*ssa.If)
+				if !isIf {
+					continue
+				}
+				cl, isCall := iff.Cond.(*ssa.Call)
+				if !isCall || hasH == nil || cl.Call.StaticCallee() != hasH {
+					continue
+				}
+				tested = true
+				first := b.Succs[0].Instrs[0]
+				if pred(first) {
+					ok = true
+				} else if _, good := mustPassBefore(first, pred, isReturn); good {
+					ok = true
+				}
+			}
+			if !tested {
+				_, ok = mustPassBefore(fn.Blocks[0].Instrs[0], pred, isReturn)
+			}
+			name := "catch"
+			if f == fFin {
+				name = "finally"
+			}
+			c.Check(rule, fmt.Sprintf("%s | handler's %s position", fnName(fn), name), l.Pos(fn.Pos()), ok, "cleared on every path on which the frame has a handler",
+				"entering the "+what+" block does not clear the handler's "+name+" position on every path: the handler is not consumed, so an error thrown inside the block is delivered to the same statement again (its own catch takes an error thrown in its finally block, which then runs twice)")
+		}
+	}
+	check(sc, "catch", fCatch)
+	check(sf, "finally", fCatch, fFin)
+}
